@@ -217,6 +217,7 @@ static int aggregateChain(KSI_CTX *ctx, KSI_LIST(KSI_HashChainLink) *chain, cons
 					algo_id = tmp;
 
 					KSI_DataHasher_free(hsr);
+					hsr = NULL;
 					res = KSI_DataHasher_open(ctx, algo_id, &hsr);
 					if (res != KSI_OK) {
 						KSI_pushError(ctx, res, NULL);
